@@ -41,6 +41,8 @@ import FV.Props.C03
   | `posted_net_centres`,                                | dispersion and net-centre rows read back, and the        |
   | `posted_objective_alpha_weighting`                   | objective = alpha·wire length + (1-alpha)·dispersion     |
   | `extract_returns_of_solverPost`            | `SolverPost` incl. `a ≤ 1`: then `extract_solution` does NOT raise  |
+  | `WitnessPosted.glbfloor_correct_solver_vars_applied`, `…_posted_from_die_applied`, `…_from_die_applied`: the posted-  |
+  |   system headlines APPLIED with a certifying solver defined on every state (refine pass, kernel-checked runs)        |
   | `solverMeetsPosted_of_vars`,               | `SolverMeetsPostedVars`: bounds of the declared VARIABLES and the   |
   | `glbfloor_correct_solver_vars`             | posted rows — the constants are read back by FRAME, not assumed    |
 
@@ -1525,5 +1527,252 @@ theorem glbfloor_correct_applied : ∃ (init r : AState ℚ), glbfloorA exEnvA w
   exact ⟨⟨a, st, wMods⟩, r, hr, c1, c5, c6⟩
 
 end WitnessHard
+
+/-! ### applied witness of the POSTED-SYSTEM headline (audit 4): a solver that answers, on every state
+
+`WitnessFixed.wSolve` cannot meet `SolverMeetsPosted` (its constant centre violates the centroid rows after a refinement).
+Here the solver is CERTIFYING: for the system FRAME posts for the state it is asked about it proposes a point computed from
+that system and answers only if the point checks (bounds + residual 0 of every row, constants read back) — so
+`SolverMeetsPostedVars` holds on every state by construction, no decidable equality on states needed, and the loop really
+returns across a refine pass (kernel-checked). -/
+
+namespace WitnessPosted
+open WitnessFixed (die0 st0 wS wMods ownB)
+
+/-- a row with residual 0 holds with tolerance 0. -/
+theorem holds_of_residual (σ : GlbOpt.V → ℚ) (r : GlbOpt.Row ℚ) (h : GlbOpt.residual σ r = 0) : GlbOpt.holds σ 0 0 r := by
+  cases r with
+  | obj n e => trivial
+  | eqn n l c rr =>
+    cases c <;> simp only [GlbOpt.residual, GlbOpt.holds] at h ⊢
+    · split at h <;> linarith
+    · split at h <;> linarith
+    · split at h <;> (rw [abs_le]; constructor <;> linarith)
+
+def nd0 : NetData ℚ := ⟨3/10, fun n => if n = "S" then 2 else 4, [(1, ["S", "F"])], fun a _ => a * a⟩
+
+/-- the point the witness solver proposes for a posted system `I` (soft `S` of area 2, fixed `F`): `S` takes the same
+    ratio `2 / (free area)` of every cell `F` does not own; centre and dispersion by their defining rows. -/
+def sigmaOf (I : GlbOpt.Input ℚ) : GlbOpt.V → ℚ :=
+  let isFree : Nat → Bool := fun c => getA I.offered exF c == some 0
+  let free := GlbOpt.lsum (((GlbOpt.cellIdx I).filter isFree).map (GlbOpt.cellArea I))
+  let aS : Nat → ℚ := fun c => if isFree c then 2 / free else 0
+  let xS := 1 / 2 * GlbOpt.lsum ((GlbOpt.cellIdx I).map fun c => GlbOpt.cellArea I c * GlbOpt.cellCx I c * aS c)
+  let yS := 1 / 2 * GlbOpt.lsum ((GlbOpt.cellIdx I).map fun c => GlbOpt.cellArea I c * GlbOpt.cellCy I c * aS c)
+  let dS := 6 / I.powF 2 (3 / 2) * GlbOpt.lsum ((GlbOpt.cellIdx I).map fun c => GlbOpt.cellArea I c * aS c *
+    ((xS - GlbOpt.cellCx I c) * (xS - GlbOpt.cellCx I c) + (yS - GlbOpt.cellCy I c) * (yS - GlbOpt.cellCy I c)))
+  fun v => match v with
+    | .a n c => if n = "S" then aS c else 0
+    | .x n => if n = "S" then xS else 0
+    | .y n => if n = "S" then yS else 0
+    | .d n => if n = "S" then dS else 0
+    | _ => 0
+
+/-- the certificate: the variables respect their bounds and every posted row has residual 0 once the constants are read
+    back. -/
+def certOK (p : GlbOpt.Posted ℚ) (σ : GlbOpt.V → ℚ) : Bool :=
+  (p.vars.all fun d =>
+    (match d.2.1 with | some lb => decide (lb ≤ σ d.1) | none => true) &&
+    (match d.2.2 with | some ub => decide (σ d.1 ≤ ub) | none => true)) &&
+  (p.rows.all fun r => decide (GlbOpt.residual (GlbOpt.readBack p σ) r = 0))
+
+theorem satVars_of_cert (p : GlbOpt.Posted ℚ) (σ : GlbOpt.V → ℚ) (h : certOK p σ = true) : GlbOpt.SatVars σ 0 0 p := by
+  unfold certOK at h
+  simp only [Bool.and_eq_true, List.all_eq_true, decide_eq_true_eq] at h
+  refine ⟨fun d hd => ⟨fun lb hl => ?_, fun ub hu => ?_⟩, fun r hr => holds_of_residual _ _ (h.2 r hr)⟩
+  · have := (h.1 d hd).1; rw [hl] at this; simpa using this
+  · have := (h.1 d hd).2; rw [hu] at this; simpa using this
+
+/-- A CERTIFYING SOLVER, defined on every loop state: it proposes `sigmaOf` for the system FRAME posts for that state and
+    answers only if the certificate checks. -/
+def cSolve : AState ℚ → Option (Answer ℚ) := fun o =>
+  let p := GlbOpt.post (inputOf die0 (9/10) o nd0)
+  let σ := sigmaOf (inputOf die0 (9/10) o nd0)
+  if certOK p σ then some (GlbOpt.ansOf (GlbOpt.readBack p σ)) else none
+
+/-- it meets the posted-system hypothesis on EVERY state (tolerances 0). -/
+theorem cSolve_meets (init : AState ℚ) : SolverMeetsPostedVars cSolve 0 0 (9/10) die0 init := by
+  intro o ans _ hs
+  unfold cSolve at hs
+  simp only at hs
+  split at hs
+  · rename_i hc
+    simp only [Option.some.injEq] at hs
+    exact ⟨_, nd0, hs.symm, satVars_of_cert _ _ hc⟩
+  · cases hs
+
+theorem mk_ok : ∃ a st, mkAllocation exEnvA st0 exRawA = .ok (a, st) ∧
+    (a.cells.all fun c => c.rect.isInside die0) = true ∧
+    ((a.cells.map ofCell).all ownB) = true ∧
+    (glbfloorA exEnvA cSolve (9/10) (some 2) 5 ⟨a, st, wMods⟩).isSome = true ∧
+    ((optimizeA exEnvA cSolve (9/10) ⟨a, st, wMods⟩).map (mustRefineA (9/10))) = some true := by
+  have h : (match mkAllocation exEnvA st0 exRawA with
+    | .ok (a, st) => (a.cells.all fun c => c.rect.isInside die0) && ((a.cells.map ofCell).all ownB) &&
+        (glbfloorA exEnvA cSolve (9/10) (some 2) 5 ⟨a, st, wMods⟩).isSome &&
+        (((optimizeA exEnvA cSolve (9/10) ⟨a, st, wMods⟩).map (mustRefineA (9/10))) == some true)
+    | .error _ => false) = true := by decide +kernel
+  cases hh : mkAllocation exEnvA st0 exRawA with
+  | error e => rw [hh] at h; cases h
+  | ok p =>
+    obtain ⟨a, st⟩ := p
+    rw [hh] at h
+    simp only [Bool.and_eq_true, beq_iff_eq] at h
+    exact ⟨a, st, rfl, h.1.1.1, h.1.1.2, h.1.2, h.2⟩
+
+/-- **`glbfloor_correct_solver_vars` (hence `glbfloor_correct_posted`) APPLIED**: soft `S` + fixed `F`, the certifying
+    solver `cSolve` (defined on every state, proved to meet `SolverMeetsPostedVars`), `max_iter = 2` with a refine pass in
+    between (`mk_ok`, kernel-checked): the loop returns and the returned value has the seven properties. -/
+theorem glbfloor_correct_solver_vars_applied : ∃ (init r : AState ℚ),
+    glbfloorA exEnvA cSolve (9/10) (some 2) 5 init = some r ∧
+    SolverMeetsPosted cSolve 0 0 (9/10) die0 init ∧
+    CellsFeasible die0 init.eps.area r ∧
+    (∀ c ∈ r.alloc.cells, (c.alloc.map (·.2)).sum ≤ 1 + (0 + (init.mods.length : ℚ) * 0)) ∧
+    (∀ m ∈ r.mods, InDie die0 m.cx m.cy) ∧ List.Forall₂ ModRel init.mods r.mods ∧
+    (exF ∈ r.mods ∧ FixedOwn (r.alloc.cells.map ofCell) exF) := by
+  obtain ⟨a, st, hmk, hin, hownb, hrun, href⟩ := mk_ok
+  have hv : ValidAlloc st a := FV.C02.constructor_valid exEnvA st0 exRawA a st
+    (by intro rc hrc; simp [exRawA] at hrc; rcases hrc with rfl | rfl <;> simp [RawPos])
+    (by intro _; simp [st0]) (by simp [exEnvA]) (by intro x; simp [exEnvA]) hmk
+  obtain ⟨r, hr⟩ := Option.isSome_iff_exists.mp hrun
+  have hin' : ∀ c ∈ (⟨a, st, wMods⟩ : AState ℚ).alloc.cells, c.rect.isInside die0 = true := by
+    simpa [List.all_eq_true] using hin
+  have hown : ∀ f ∈ (⟨a, st, wMods⟩ : AState ℚ).mods, f.fixed = true →
+      FixedOwn ((⟨a, st, wMods⟩ : AState ℚ).alloc.cells.map ofCell) f := by
+    intro f hf hfx
+    simp only [wMods, List.mem_cons, List.not_mem_nil, or_false] at hf
+    rcases hf with rfl | rfl
+    · simp [wS] at hfx
+    · intro ra hra
+      have := List.all_eq_true.mp hownb ra hra
+      unfold ownB at this
+      simp only [Bool.or_eq_true, Bool.and_eq_true, beq_iff_eq, Option.isNone_iff_eq_none, List.all_eq_true] at this
+      rcases this with h | ⟨h1, h2⟩
+      · left; simpa [exF] using h
+      · right; exact ⟨by simpa [exF] using h1, fun r hr => h2 r hr⟩
+  have hk : GlbOpt.KeysDistinct (⟨a, st, wMods⟩ : AState ℚ).mods := by
+    show GlbOpt.KeysDistinct wMods
+    unfold GlbOpt.KeysDistinct; decide +kernel
+  have hall := glbfloor_correct_solver_vars exEnvA cSolve (9/10) 0 0 die0 (some 2) 5 ⟨a, st, wMods⟩ r hv hin' hown
+    (by intro f hf hfx
+        simp only [wMods, List.mem_cons, List.not_mem_nil, or_false] at hf
+        rcases hf with rfl | rfl
+        · simp [wS] at hfx
+        · simp [InDie, die0, exF, Rect.xmin, Rect.xmax, Rect.ymin, Rect.ymax]; norm_num)
+    (by norm_num) (le_refl _) (le_refl _) (by norm_num) (by simp) hk (cSolve_meets _) hr
+  obtain ⟨c1, _, c3, c4, c5, _, c7⟩ := hall
+  have hF := c7 exF (by simp [wMods]) rfl
+  exact ⟨⟨a, st, wMods⟩, r, hr, solverMeetsPosted_of_vars cSolve 0 0 (9/10) die0 _ hk (cSolve_meets _), c1, c3, c4, c5,
+    hF.1, hF.2.1⟩
+
+/-! the same through the whole chain C01 → C03 → C10: the die document and netlist of `FV.C03`'s example -/
+section FromDie
+open FV.C03 FV.InitAlloc
+def die44 : Rect ℚ := Die.dieRect 4 4
+def cSolve4 : AState ℚ → Option (Answer ℚ) := fun o =>
+  let p := GlbOpt.post (inputOf die44 (9/10) o nd0)
+  let σ := sigmaOf (inputOf die44 (9/10) o nd0)
+  if certOK p σ then some (GlbOpt.ansOf (GlbOpt.readBack p σ)) else none
+
+theorem run44 : (match Die.dieModel exSqrt none exDoc (netFixedRects C03.exMods) (some exPicks) with
+     | .ok (out, _, _) =>
+       (match createInitialAllocation exSqrt 0 false C03.exMods (refinableOf out) out.fixed with
+        | .ok A =>
+          (match Alloc.mkAllocation (⟨0, 0, exSqrt⟩ : Alloc.Env ℚ) ⟨0, 0⟩ ((A.cells.map toAllocCell).map Alloc.Cell.toRaw) with
+           | .ok (a, st) => (glbfloorA ⟨0, 0, exSqrt⟩ cSolve4 (9/10) (some 2) 5 ⟨a, st, WitnessFixed.wMods⟩).isSome
+           | .error _ => false)
+        | .error _ => false)
+     | .error _ => false) = true := by
+  unfold Die.dieModel
+  simp only [show Die.parseDie exDoc = .ok C03.exInp from by with_unfolding_all rfl]
+  unfold Die.dieCore
+  simp only [ex_grid]
+  decide +kernel
+
+theorem cSolve4_meets (init : AState ℚ) : SolverMeetsPostedVars cSolve4 0 0 (9/10) die44 init := by
+  intro o ans _ hs
+  unfold cSolve4 at hs
+  simp only at hs
+  split at hs
+  · rename_i hc
+    simp only [Option.some.injEq] at hs
+    exact ⟨_, nd0, hs.symm, satVars_of_cert _ _ hc⟩
+  · cases hs
+
+theorem wMods_glbModsOf : GlbModsOf C03.exMods WitnessFixed.wMods := by
+  intro f hf hfx
+  simp only [WitnessFixed.wMods, List.mem_cons, List.not_mem_nil, or_false] at hf
+  rcases hf with rfl | rfl
+  · simp [WitnessFixed.wS] at hfx
+  · refine ⟨⟨"F", true, [{ cx := 3, cy := 1, w := 2, h := 2, fixed := true, hard := true }], [4], none⟩,
+      by simp [C03.exMods], rfl, rfl, rfl, ?_, ?_⟩ <;>
+    norm_num [exF, Glb.momentX, Glb.momentY, Glb.totalArea, Rect.area]
+
+/-- **`glbfloor_correct_posted_from_die` APPLIED**: the 4×4 die document and netlist of `FV.C03` (valid die, accepted picks),
+    the allocation `create_initial_allocation` returns on it, the Glb view `[S, F]`, the certifying solver: the loop returns
+    after a refine pass (`run44`, kernel-checked) and the returned value has the properties — no start-state hypothesis and
+    no `SolverPost` hypothesis anywhere. -/
+theorem glbfloor_correct_posted_from_die_applied : ∃ (a : Alloc.Allocation ℚ) (r : AState ℚ),
+    glbfloorA ⟨0, 0, exSqrt⟩ cSolve4 (9/10) (some 2) 5 ⟨a, ⟨0, 0⟩, WitnessFixed.wMods⟩ = some r ∧
+    CellsFeasible die44 0 r ∧ (∀ m ∈ r.mods, InDie die44 m.cx m.cy) ∧
+    List.Forall₂ ModRel WitnessFixed.wMods r.mods ∧
+    (exF ∈ r.mods ∧ FixedOwn (r.alloc.cells.map ofCell) exF) := by
+  obtain ⟨out, h1, h2⟩ := glbfloor_correct_posted_from_die (⟨0, 0, exSqrt⟩ : Alloc.Env ℚ) (⟨0, 0⟩ : Alloc.Eps ℚ)
+    (le_refl _) (le_refl _) exSqrt none exDoc C03.exInp C03.exMods (by with_unfolding_all rfl)
+    (by decide +kernel) (by decide +kernel) ex_validDie exPicks ex_picks_accepted ex_netOK ex_fixed_have_rects
+    (by decide +kernel)
+  have hrun := run44
+  rw [h1] at hrun
+  simp only at hrun
+  cases hA : createInitialAllocation exSqrt 0 false C03.exMods (refinableOf out) out.fixed with
+  | error e => rw [hA] at hrun; simp at hrun
+  | ok A =>
+    rw [hA] at hrun
+    simp only at hrun
+    obtain ⟨a, hmk, hall⟩ := h2 A hA
+    rw [hmk] at hrun
+    simp only at hrun
+    obtain ⟨r, hr⟩ := Option.isSome_iff_exists.mp hrun
+    have hk : GlbOpt.KeysDistinct (⟨a, ⟨0, 0⟩, WitnessFixed.wMods⟩ : AState ℚ).mods := by
+      show GlbOpt.KeysDistinct WitnessFixed.wMods
+      unfold GlbOpt.KeysDistinct; decide +kernel
+    obtain ⟨c1, _, _, c4, c5, _, c7⟩ := hall WitnessFixed.wMods wMods_glbModsOf cSolve4 (9/10) 0 0 (some 2) 5 r
+      (by norm_num) (le_refl _) (le_refl _) (by norm_num [WitnessFixed.wMods]) (by simp)
+      (solverMeetsPosted_of_vars cSolve4 0 0 (9/10) die44 _ hk (cSolve4_meets _)) hr
+    have hF := c7 exF (by simp [WitnessFixed.wMods]) rfl
+    exact ⟨a, r, hr, c1, c4, c5, hF.1, hF.2.1⟩
+
+/-- **`glbfloor_correct_from_die` APPLIED** on the same instance, `SolverOK` obtained from the posted system
+    (`solverOK_of_posted`). -/
+theorem glbfloor_correct_from_die_applied : ∃ (a : Alloc.Allocation ℚ) (r : AState ℚ),
+    glbfloorA ⟨0, 0, exSqrt⟩ cSolve4 (9/10) (some 2) 5 ⟨a, ⟨0, 0⟩, WitnessFixed.wMods⟩ = some r ∧
+    CellsFeasible die44 0 r ∧ List.Forall₂ ModRel WitnessFixed.wMods r.mods := by
+  obtain ⟨out, h1, h2⟩ := glbfloor_correct_from_die (⟨0, 0, exSqrt⟩ : Alloc.Env ℚ) (⟨0, 0⟩ : Alloc.Eps ℚ)
+    (le_refl _) (le_refl _) exSqrt none exDoc C03.exInp C03.exMods (by with_unfolding_all rfl)
+    (by decide +kernel) (by decide +kernel) ex_validDie exPicks ex_picks_accepted ex_netOK ex_fixed_have_rects
+    (by decide +kernel)
+  have hrun := run44
+  rw [h1] at hrun
+  simp only at hrun
+  cases hA : createInitialAllocation exSqrt 0 false C03.exMods (refinableOf out) out.fixed with
+  | error e => rw [hA] at hrun; simp at hrun
+  | ok A =>
+    rw [hA] at hrun
+    simp only at hrun
+    obtain ⟨a, hmk, hall⟩ := h2 A hA
+    rw [hmk] at hrun
+    simp only at hrun
+    obtain ⟨r, hr⟩ := Option.isSome_iff_exists.mp hrun
+    have hk : GlbOpt.KeysDistinct (⟨a, ⟨0, 0⟩, WitnessFixed.wMods⟩ : AState ℚ).mods := by
+      show GlbOpt.KeysDistinct WitnessFixed.wMods
+      unfold GlbOpt.KeysDistinct; decide +kernel
+    have hok := solverOK_of_posted cSolve4 0 0 (9/10) die44 ⟨a, ⟨0, 0⟩, WitnessFixed.wMods⟩ (le_refl _)
+      (solverMeetsPosted_of_vars cSolve4 0 0 (9/10) die44 _ hk (cSolve4_meets _))
+    obtain ⟨c1, _, _, _, c5, _, _⟩ := hall WitnessFixed.wMods wMods_glbModsOf cSolve4 (9/10) _ (some 2) 5 r
+      (by norm_num) (by norm_num) (by norm_num [WitnessFixed.wMods]) (by simp) hok hr
+    exact ⟨a, r, hr, c1, c5⟩
+
+end FromDie
+
+end WitnessPosted
 
 end FV.C10
